@@ -484,8 +484,19 @@ class UserStagePlain(UserStage):
         return UserStage.__iter__(self)
 
 
+class UserSourceNoCopy(UserSource):
+    """a user-written dataset that does not implement copy(): everything that
+    needs a copy of the pipeline (freezing, multi-worker prefetch, catch) is
+    refused loudly"""
+
+    def copy(self, freeze=False):
+        return lazy_dataset.Dataset.copy(self, freeze=freeze)
+
+
 def make_source(src, offset=0):
     n = src['n']
+    if src.get('kind', 'list') == 'user_nocopy':
+        return UserSourceNoCopy(n, offset)
     if src.get('kind', 'list') == 'user':
         return UserSource(n, offset)
     if src.get('kind', 'list') == 'dict':
